@@ -20,7 +20,8 @@ From Coq Require Import ZArith NArith List Bool Lia.
 From Tinode Require Import Base.Util Pure.Acs Sys.Topic Sys.TopicTac Sys.TopicFrame Sys.TopicNum Sys.TopicNumThm Sys.TopicInst
   Sys.TopicCohC08 Sys.TopicCohC08Proofs Sys.TopicCohC08Step Sys.TopicCohC08Run Sys.TopicCohC08Query Sys.TopicCohC08Wit
   Sys.TopicCohC08Reject Sys.TopicCohC08Ack Sys.TopicCohC08Wit2 Sys.TopicCohC08Keys Sys.TopicCohC08Bisim
-  Sys.PermBranchC08c Sys.PermBranchC08cProofs Sys.PermAckFullC08c Sys.PermBranchC08cWit.
+  Sys.PermBranchC08c Sys.PermBranchC08cProofs Sys.PermAckFullC08c Sys.PermBranchC08cWit
+  Sys.MarksLagC08d.
 Import ListNotations.
 Open Scope Z_scope.
 
@@ -143,6 +144,30 @@ Theorem c08_self_raise_sub_stored : forall x sd want bkg c p0,
     g <> p_given p0 /\
     stored_acs_c08c (st (fst (step dr nr sm NoFault x (OSub sd want bkg)))) (sess_uid sm sd) w g.
 Proof. exact (raise_sub_stored_c08c dr nr sm). Qed.
+(* ---- part d, marks.  WHAT THE KNOWN FINDING note-read-recv-cached-only EXCUSES AND WHAT IT DOES NOT.
+   After a {note read n} above the received mark the cache is not load(store) any more (c08_trigger_note_read_needed):
+   the cached recv is max(stored recv, read).  cache_lag_c08d is that weaker agreement (every stored field but recv,
+   and max(recv, read)).  {get desc} reports read and max(recv, read), so: *)
+(* two caches within the lag answer {get desc} alike, for every session, attached or not *)
+Theorem c08_getdesc_same_modulo_recv_lag : forall f s c d n sid,
+  cache_lag_c08d c d -> c_sess c = c_sess d ->
+  snd (step dr nr sm f (mkState s (Some c) n) (OGetDesc sid)) = snd (step dr nr sm f (mkState s (Some d) n) (OGetDesc sid)).
+Proof. exact (step_getdesc_lag_c08d dr nr sm). Qed.
+(* every {note} request (read / recv / kp, any mark, any fault plan, attached or routed by the hub) keeps the
+   loaded topic within the lag of what the load path would build *)
+Theorem c08_note_keeps_recv_lag : forall f x sid what seq,
+  NoDup (map s_user (subs (st x))) -> sess_uid sm sid <> 0%N ->
+  lag_state_c08d x -> lag_state_c08d (fst (step dr nr sm f x (ONote sid what seq))).
+Proof. exact (step_note_lag_c08d dr nr sm). Qed.
+(* REPORTED MARKS ARE RELOAD-INVARIANT: from a coherent state, after any history of {note} and {get desc}
+   requests - the finding's trigger included - {get desc} is answered the same with and without a reload.
+   The finding excuses the cached recv itself (and the stored recv a later {note recv} writes), never what
+   replyGetDesc reports. *)
+Theorem c08_reported_marks_reload_invisible : forall h x f sid,
+  Forall (marks_op_c08d sm) h -> NoDup (map s_user (subs (st x))) -> coherent x ->
+  snd (step dr nr sm f (fst (run dr nr sm x h)) (OGetDesc sid)) =
+  snd (step dr nr sm f (reload (fst (run dr nr sm x h))) (OGetDesc sid)).
+Proof. exact (run_marks_reload_invisible_c08d dr nr sm). Qed.
 End C08.
 
 (* ------------------------------------------------------------------ *)
@@ -209,6 +234,9 @@ Print Assumptions c08_reject_no_change_partial.
 Print Assumptions c08_acs_ack_is_stored.
 Print Assumptions c08_self_raise_setsub_stored.
 Print Assumptions c08_self_raise_sub_stored.
+Print Assumptions c08_getdesc_same_modulo_recv_lag.
+Print Assumptions c08_note_keeps_recv_lag.
+Print Assumptions c08_reported_marks_reload_invisible.
 Print Assumptions c08_reject_no_change_refuted.
 Print Assumptions c08_reject_banned_needed.
 Print Assumptions c08_reject_fault_publish_needed.
